@@ -13,7 +13,7 @@ from mzverif.core import Discard, Sub, Violation, require
 
 ID = "C03"
 LEVEL = "exploration"
-TECHNIQUE = "Hypothesis over dataset configurations (generator x kwargs x grid size x n_mazes up to 101 x seed x endpoint options x serial/from_config/parallel with pool size) + grids beyond 128 cells per side; oracle = per-item validity predicate from the independent BFS model plus endpoint-option conformance; endpoint-draws: exact model of which start/end cells the options leave (a refusal is accepted only when nothing is left)"
+TECHNIQUE = "Hypothesis over dataset configurations (generator x kwargs x grid size x n_mazes up to 101 x seed x endpoint options x serial/from_config/parallel with pool size) + grids beyond 128 cells per side + cyclic mazes with endpoints more than 127 steps apart; oracle = per-item validity predicate from the independent BFS model plus endpoint-option conformance; endpoint-draws: exact model of which start/end cells the options leave (a refusal is accepted only when nothing is left)"
 RULE = (
     "case = (configuration spec incl. endpoint options, generation mode serial | parallel with k processes | from_config). Every maze "
     "of the result is checked. Non-trivial = n_mazes >= 2, grid_n >= 3 and (parallel generation or at least one endpoint option); "
@@ -252,6 +252,22 @@ def _large_cases(count):
     return cases
 
 
+def _far_cyclic_cases(count):
+    """mazes with cycles whose endpoints lie more than 127 steps apart (every distance estimate along the way passes the width of a
+    signed byte); below 128 cells per side, so everything else about the dataset is ordinary"""
+    def cases(shard, nshards):
+        for k in range(count):
+            if k % nshards != shard:
+                continue
+            sd = core.derive_seed(core.SEED, "C03-far", k)
+            n = [86, 70, 100, 80, 66, 92][k % 6]
+            a, b = [([0, 0], [n - 1, n - 1]), ([0, n - 1], [n - 1, 0]), ([0, 2], [n - 1, n - 1]), ([n - 1, n - 1], [0, 0])][(k // 6) % 4]
+            yield {"mode": "serial", "spec": {"name": "far", "grid_n": n, "n_mazes": 2, "ctor": "gen_dfs_percolation", "kwargs": {"p": [0.03, 0.02, 0.05, 0.1][k % 4]},
+                                              "seed": sd % (2**31), "endpoint": {"allowed_start": [a], "allowed_end": [b]}}}
+
+    return cases
+
+
 def subs(tier: str):
     q = tier == "quick"
     return [
@@ -261,6 +277,7 @@ def subs(tier: str):
         # interpreters, a chunk of cases at a time, each chunk under a wall limit (a hung chunk is killed and counted, not an alarm)
         Sub("endpoint-draws", check_draws, "hypothesis", strategy=lambda: _draws(7 if q else 12), examples=150 if q else 3000),
         Sub("grids-beyond-128", check, "exhaustive", cases=_large_cases(6 if q else 24)),
+        Sub("far-endpoints-with-cycles", check, "exhaustive", cases=_far_cyclic_cases(32 if q else 192)),
         Sub("parallel-inner", check, "hypothesis", strategy=lambda: _case(6 if q else 10, 12, ["parallel"], 4 if q else 8), examples=50, shards=1, hidden=True),
         Sub("parallel", check, "custom", run=core.hypothesis_in_fresh_interpreters("C03", tier, "parallel-inner", "parallel", 50 if q else 500, 25 if q else 100, 240 if q else 900)),
     ]
